@@ -307,16 +307,25 @@ Section Transport.
     - unfold get_index. rewrite get_object_eq, const_final by reflexivity. reflexivity.
   Qed.
 
-  (* index_head_truthful (after the fix): 200 iff the directory has an entry of that name *)
+  (* index_head_truthful: 200 iff the entry is a file, 404 iff there is no entry of that name,
+     an error (400) for a directory or an entry that cannot be opened *)
   Lemma index_head budget c d n auth :
     plain_name n -> authorized c auth ->
     remote_has_index budget auth c d n =
-    (match dlookup n d with Some DErr => HasFalse | Some _ => HasTrue | None => HasFalse end, 1%N).
+    (match dlookup n d with Some (DFile _) => HasTrue | Some _ => HasErr | None => HasFalse end, 1%N).
   Proof.
     intros Hn Ha. unfold HTTPClient.remote_has_index, HTTPServer.index_handle, index_serve.
     rewrite authorized_ok by exact Ha. unfold mk_req; cbn [r_path r_method r_body r_auth]. rewrite base_plain by exact Hn.
     cbn [index_exec]. unfold fs_open. destruct Hn as [_ [_ [-> ->]]].
-    destruct (dlookup n d) as [[b| |]|]; cbn [fst]; rewrite has_chunk_eq, const_final by reflexivity; reflexivity.
+    destruct (dlookup n d) as [[b| |]|]; cbn [fst index_head_status]; rewrite has_chunk_eq, const_final by reflexivity; reflexivity.
+  Qed.
+
+  Lemma index_head_missing_iff budget c d n auth :
+    plain_name n -> authorized c auth ->
+    (fst (remote_has_index budget auth c d n) = HasFalse <-> dlookup n d = None).
+  Proof.
+    intros Hn Ha. rewrite index_head by assumption. cbn [fst].
+    destruct (dlookup n d) as [[b| |]|]; split; congruence.
   Qed.
 
   Lemma index_put_get budget c d n auth ix :
@@ -339,26 +348,37 @@ Section Transport.
   Qed.
 
   (* ---------- index server in front of a remote index store ---------- *)
+  Notation proxied_get_index_gen := (proxied_get_index_gen index_t idx_decode idx_encode).
   Notation proxied_get_index := (proxied_get_index index_t idx_decode idx_encode).
+  Notation proxied_get_index_prefix := (proxied_get_index_prefix index_t idx_decode idx_encode).
   Notation get_index := (get_index index_t idx_decode).
 
-  (* what the upstream delivers arrives; every upstream FAILURE is an error for the client,
-     never "missing" ... *)
-  Lemma proxied_index budget budget_up rs_up :
-    proxied_get_index budget budget_up rs_up =
+  Lemma proxied_index_gen prefix budget budget_up rs_up :
+    proxied_get_index_gen prefix budget budget_up rs_up =
     match fst (get_index budget_up rs_up) with
     | IData ix => (IData ix, 1%N)
-    | IMissing => (IErr, 1%N)
+    | IMissing => (if prefix then IErr else IMissing, 1%N)
     | IErr => (IErr, 1%N)
     end.
   Proof.
-    unfold HTTPClient.proxied_get_index. destruct (fst (get_index budget_up rs_up)) as [ix| |]; cbn [index_get_proxied].
+    unfold HTTPClient.proxied_get_index_gen. destruct (fst (get_index budget_up rs_up)) as [ix| |]; cbn [index_get_proxied_gen].
     - unfold HTTPClient.get_index at 1. rewrite get_object_eq, const_200. cbn [fst snd obj_of N.eqb Pos.eqb]. now rewrite idx_roundtrip.
-    - unfold HTTPClient.get_index at 1. rewrite get_object_eq, const_final by reflexivity. reflexivity.
+    - destruct prefix; unfold HTTPClient.get_index at 1; rewrite get_object_eq, const_final by reflexivity; reflexivity.
     - unfold HTTPClient.get_index at 1. rewrite get_object_eq, const_final by reflexivity. reflexivity.
   Qed.
 
-  Lemma proxied_index_never_false_missing budget budget_up rs_up :
-    fst (proxied_get_index budget budget_up rs_up) <> IMissing.
-  Proof. rewrite proxied_index. destruct (fst (get_index budget_up rs_up)); discriminate. Qed.
+  (* through a proxying index server the client sees exactly what a direct client of the upstream
+     store would see: the index, "missing", or an error -- after one request *)
+  Lemma proxied_index budget budget_up rs_up :
+    proxied_get_index budget budget_up rs_up = (fst (get_index budget_up rs_up), 1%N).
+  Proof.
+    unfold HTTPClient.proxied_get_index. rewrite proxied_index_gen.
+    destruct (fst (get_index budget_up rs_up)); reflexivity.
+  Qed.
+
+  (* before the fix: a missing index upstream reached the client as an error *)
+  Lemma proxied_index_prefix budget budget_up rs_up :
+    fst (get_index budget_up rs_up) = IMissing ->
+    proxied_get_index_prefix budget budget_up rs_up = (IErr, 1%N).
+  Proof. intros E. unfold HTTPClient.proxied_get_index_prefix. now rewrite proxied_index_gen, E. Qed.
 End Transport.
